@@ -253,6 +253,15 @@ def run(tier, replay):
             for cid in cids:
                 evs = [{"ev": e["ev"], "id": int(e.get("r", e.get("s", 0))), "took": int(e.get("took", 0) or 0)} for e in traces[cid]]
                 recs.append({"id": cid, "ev": evs})
+            # binding self-test: a copy of one trace without its first "acquired" event must be rejected
+            probe = None
+            for rc_ in recs:
+                idx = [i for i, e in enumerate(rc_["ev"]) if e["ev"] == "acquired"]
+                if idx and any(e["ev"] == "relbegin" and e["id"] == rc_["ev"][idx[0]]["id"] for e in rc_["ev"]):
+                    probe = {"id": 1000000 + rc_["id"], "ev": [e for i, e in enumerate(rc_["ev"]) if i != idx[0]]}
+                    break
+            if probe:
+                recs = recs + [probe]
             vlib.write_ndjson(os.path.join(wd, "c13_traces.ndjson"), recs)
             for kf in ([False, True] if kf_open else [False]):
                 files = {"GTrace.tla": mc_module("LimiterTrace", "GTrace", n, list(sess), list(fails), list(rot)),
@@ -266,6 +275,8 @@ def run(tier, replay):
                     if line.startswith('<<"ACCEPTED"'):
                         parts = line.strip("<>").split(",")
                         cid = int(parts[1])
+                        if cid >= 1000000:
+                            raise vlib.Inconclusive("LimiterTrace accepts a trace without the acquisition event: the trace spec does not bind")
                         okflag = parts[2].strip() == "TRUE"
                         if not kf:
                             accepted_strict.add(cid)
